@@ -28,7 +28,10 @@ def make_lib(light: bool = False):
     lib = Propositional() if light else Tautology()
     extra = [P.Implies(P.Symbol('a'), P.Symbol('b')), P.Symbol('a'),
              P.Implies(P.App(P.Symbol('f'), P.EVar(0)), P.MetaVar(0, e_fresh=(P.EVar(0),))),
-             P.Exists(0, P.App(P.Symbol('f'), P.EVar(0)))]
+             P.Exists(0, P.App(P.Symbol('f'), P.EVar(0))),
+             # pending substitutions whose PLUG is schematic (instantiating only the plug, only the body, or both)
+             P.Implies(P.MetaVar(0), P.ESubst(P.MetaVar(1), P.EVar(1), P.MetaVar(0))),
+             P.Implies(P.MetaVar(0), P.SSubst(P.MetaVar(1), P.SVar(1), P.MetaVar(0)))]
     for a in extra:
         lib.add_axiom(a)
     return lib
@@ -43,7 +46,9 @@ def pool():
             P._and(P.MetaVar(1), P.EVar(1)), P.ESubst(P.MetaVar(1), P.EVar(0), P.EVar(1)), P.MetaVar(2, e_fresh=(P.EVar(0),)),
             P.App(P.Symbol('f'), P.EVar(0)), P.Exists(1, P.EVar(0)), P.Mu(0, P.SVar(0)),
             P.Instantiate(P.Implies(P.MetaVar(0), P.MetaVar(1)), frozendict({1: P.EVar(0), 0: P.Symbol('a')})),
-            P.MetaVar(1, negative=(P.SVar(0),)), P.Mu(0, P.Implies(P.MetaVar(1, negative=(P.SVar(0),)), P.SVar(0)))]
+            P.MetaVar(1, negative=(P.SVar(0),)), P.Mu(0, P.Implies(P.MetaVar(1, negative=(P.SVar(0),)), P.SVar(0))),
+            # symbols met in another order than the theory declares them / a symbol the theory does not mention
+            P.App(P.Symbol('b'), P.Symbol('a')), P.App(P.Symbol('z'), P.Symbol('f'))]
 
 
 LEMMAS = [('imp_refl', 1), ('bot_elim', 1), ('dneg_intro', 1), ('absurd', 2), ('peirce_bot', 1), ('and_l_imp', 2),
@@ -427,6 +432,16 @@ def main(argv=None) -> int:
     lem_sample = [d for d in ok0 if d[0] == 'lemma' and d[1] in ('imp_refl', 'bot_elim', 'dneg_intro', 'absurd', 'peirce_bot', 'and_l_imp', 'con3')][::5]
     l1 = successors(prim0, prim0, 12 if thorough else 9, 6 if thorough else 4)
     l1 += successors(lem_sample, [], 6, 3, with_mp=False)
+    nax = len(make_lib(light=True).get_axioms())
+    for axi in (nax - 2, nax - 1):
+        for k in ('inst', 'dinst'):
+            l1 += [(k, ('ax', axi), m) for m in (((0, 3),), ((0, 2),), ((1, 2),), ((1, 0),), ((0, 3), (1, 2)), ((1, 5), (0, 2)), ((0, 1),))]
+            l1 += [(k, (k, ('ax', axi), ((1, 1),)), ((0, 3),)), (k, (k, ('ax', axi), ((1, 2),)), ((0, 3),))]
+    # symbol numbering across the three files: plugs whose symbols are first met in the proof phase in another order
+    for d in (('prop1',), ('prop2',), ('ax', 0)):
+        for k in ('inst', 'dinst'):
+            l1 += [(k, d, ((0, i),)) for i in (11, 17, 18)]
+            l1 += [(k, d, m) for m in (((0, 17), (1, 3)), ((0, 3), (1, 17)), ((1, 18), (0, 17)), ((0, 18), (1, 11)))]
     ok1 = merge(chk, par.pmap(judge_chunk, [(ch, True) for ch in par.chunks(l1, n)]), agg)
     levels.append(len(ok1))
     # level 2: accepted level-1 expressions, distinct conclusions only (same conclusion -> same futures for mp/inst/gen)
